@@ -113,7 +113,7 @@ SRV_DEFECTS = ['srvhello_defect_' + d for d in (
     'alpn_name_not_offered_flag', 'framing', 'later_record_version_differs', 'next_message_not_certificate',
     'ccs_instead_of_certificate', 'resume_mismatch', 'handshake_message_instead_of_ccs', 'malformed_ccs',
     'empty_certificate_list', 'certificate_list_length')]
-REQUIRED = ['cases', 'profile_cases_judged', 'profile_expect_ok', 'profile_expect_alert', 'cases_checked', 'cases_pair', 'cases_scripted', 'cases_resume', 'cmp_resume_abbreviated', 'cmp_resume_full',
+REQUIRED = ['cases', 'cmp_policy_view', 'cases_with_observing_policy', 'profile_cases_judged', 'profile_expect_ok', 'profile_expect_alert', 'cases_checked', 'cases_pair', 'cases_scripted', 'cases_resume', 'cmp_resume_abbreviated', 'cmp_resume_full',
             'cmp_resume_alpn', 'cmp_resume_sni', 'resume_session_not_acceptable', 'cases_with_previous_life', 'handshakes_completed', 'handshakes_failed',
             'scripted_answered_server_hello', 'scripted_refused', 'expect_ok', 'expect_alert', 'expect_scripted_ok',
             'expect_scripted_alert', 'scripted_duplicate_suites', 'scripted_unknown_suite_values',
